@@ -13,7 +13,7 @@ struct GMGPolarVerif {
 };
 
 static int pick_nr(Rng& rng, int max_nr) { static const std::vector<int> s = {5, 7, 9, 11, 13, 17, 21, 25, 33, 65}; int v; do v = rng.pick(s); while (v > max_nr); return v; }
-static int pick_nt(Rng& rng, int max_nt) { static const std::vector<int> s = {4, 8, 12, 16, 24, 32, 64, 128}; int v; do v = rng.pick(s); while (v > max_nt); return v; }
+static int pick_nt(Rng& rng, int max_nt) { static const std::vector<int> s = {4, 6, 8, 10, 12, 16, 20, 24, 32, 64, 128}; int v; do v = rng.pick(s); while (v > max_nt); return v; } // powers of two and not (two wrap code paths)
 
 static int mode_residual(int cases, int max_nr, int max_nt)
 {
@@ -64,6 +64,7 @@ static int mode_transfer(int cases, int max_nr, int max_nt)
         int nr = pick_nr(rng, max_nr), nt = pick_nt(rng, max_nt);
         if (nr < 9) nr = 9;
         if (nt < 8) nt = 8;
+        if (nt % 4 != 0) nt += 2; // a level pair needs an even coarse ntheta
         Problem p = make_problem(rng, nr, nt);
         std::optional<double> split = rng.coin(0.4) ? std::optional<double>(rng.uniform(p.R0 * 0.5, p.Rmax * 1.1)) : std::nullopt;
         Chain ch = make_chain(p, 2, true, true, split);
